@@ -79,6 +79,20 @@ func c15ReportEquiv(c *vh.Ctx, es []c15EquivOut) {
 		if len(e.res) == 0 || e.res[0].Skipped {
 			continue
 		}
+		// a run that lost command output to WaitDelay under load (see c15Disturbed): the whole comparison once more, now that
+		// nothing else runs in this process
+		for try := 0; try < 3; try++ {
+			disturbed, differ := false, false
+			for _, r := range e.res {
+				disturbed = disturbed || c15Disturbed(r.c15Res)
+				differ = differ || (!r.Skipped && show(r) != show(e.res[0]))
+			}
+			if !disturbed || !differ {
+				break
+			}
+			c.Hit("comparison-repeated:command-output-lost-to-WaitDelay-under-load")
+			c15RunEquiv(&e)
+		}
 		ref := e.res[0]
 		for i, wc := range e.wcs {
 			r := e.res[i]
